@@ -10,6 +10,7 @@ import (
 	"fmt"
 	"os"
 	"sort"
+	"strconv"
 	"strings"
 	"sync"
 	"testing"
@@ -244,6 +245,22 @@ func ParseChoices(s string) []int {
 	return out
 }
 
+// rssLimitMB (VERIF_RSS_LIMIT_MB): a worker whose resident set passes it stops exploring.
+var rssLimitMB = func() int { n, _ := strconv.Atoi(os.Getenv("VERIF_RSS_LIMIT_MB")); return n }()
+
+func rssMB() int {
+	b, err := os.ReadFile("/proc/self/statm")
+	if err != nil {
+		return 0
+	}
+	f := strings.Fields(string(b))
+	if len(f) < 2 {
+		return 0
+	}
+	pages, _ := strconv.Atoi(f[1])
+	return pages * os.Getpagesize() >> 20
+}
+
 // memoCap bounds the state-signature table of one exploration (about 150 bytes per state).
 const memoCap = 6_000_000
 
@@ -261,6 +278,13 @@ func (e *Explorer) runBound(bound int) Stats {
 			return
 		}
 		if c.OverBudget() {
+			st.BudgetHit = true
+			stop = true
+			return
+		}
+		if rssLimitMB > 0 && st.Executions%512 == 511 && rssMB() > rssLimitMB {
+			c.Note("%s bound %d: stopped at %d executions: resident set above %d MB (race detector bookkeeping); counted as budget hit", e.Scenario, bound, st.Executions, rssLimitMB)
+			c.NotExhaustive()
 			st.BudgetHit = true
 			stop = true
 			return
